@@ -18,7 +18,8 @@ RULE = ("bin/cmp/iop: every operator x operand-kind pair (S P E on either side, 
         "(bit-exact as hex tokens); iop additionally with both operands the same object. fiber: all pairs "
         "of leaf fibers over n coordinates x {absent, explicit default, v, -v} for + * += *=, all such "
         "fibers x scalars x declared/estimated shape for scalar forms, seeded random leaf fibers and "
-        "2-level trees (free / tensor-owned, default 0 or 7, empty sub-fibers). non-trivial = a box case "
+        "2-level trees (free / tensor-owned, default 0 or 7, empty sub-fibers); leaf operands also with an active "
+        "range narrower than / offset from the shape (constructor, setActive, splitUniform partitions). non-trivial = a box case "
         "with a box or element operand whose value operator does not raise, or a fiber case with a "
         "non-empty left operand and (a non-empty right operand or a scalar)")
 
@@ -140,8 +141,12 @@ def _leaf_fibers(n, states):
     return list(H.all_leaf_fibers(n, states))
 
 
-def _fib_case(op, d, dflt, a, b=None, s=None, shape=None, kind="free", shape2=None):
+def _fib_case(op, d, dflt, a, b=None, s=None, shape=None, kind="free", shape2=None, act=None, actb=None):
     c = {"prop": PROP, "fam": "fiber", "op": op, "d": d, "dflt": dflt, "a": a, "kind": kind}
+    if act is not None:
+        c["act"] = act       # how the left operand gets an active range narrower than / offset from its shape
+    if actb is not None:
+        c["actb"] = actb
     if b is not None:
         c["b"] = b
     if s is not None:
@@ -159,6 +164,24 @@ FS_OPS = ["sadd", "radd", "smul", "rmul", "isadd", "ismul"]
 
 def _shape2(t, n):
     return [n, n]
+
+
+def _partition(parent, step, part):
+    """the elements splitUniform(step) puts into partition number `part`"""
+    return [e for e in parent if e[0] // step == part]
+
+
+def _rand_act(rng, tree, shape):
+    """(operand tree, active-range recipe): constructor argument, setActive(), or a split partition"""
+    how = rng.choice(["ctor", "set", "split"])
+    if how == "split" and tree:
+        step = rng.randrange(1, max(2, shape))
+        part = rng.choice(sorted({e[0] // step for e in tree}))
+        return _partition(tree, step, part), {"how": "split", "parent": tree, "step": step, "part": part}
+    how = "ctor" if how == "split" else how
+    lo = rng.randrange(0, shape + 1)
+    hi = rng.randrange(lo, shape + 1)
+    return tree, {"how": how, "lo": lo, "hi": hi}
 
 
 def _gen_fibers(rng, tier):
@@ -184,6 +207,28 @@ def _gen_fibers(rng, tier):
             for s in (0, 2, -7):
                 for shape in (None, 4):
                     yield _fib_case(op, 0, 7, a, s=s, shape=shape)
+    # active range narrower than / offset from the shape (constructor argument, setActive(),
+    # partitions of splitUniform): the scalar forms act over the SHAPE, the fiber forms over
+    # the presented elements - the active range must not matter
+    acts = [{"how": "ctor", "lo": 1, "hi": 3}, {"how": "set", "lo": 2, "hi": 5}, {"how": "ctor", "lo": 0, "hi": 2}]
+    for op in FS_OPS:
+        for a in _leaf_fibers(3, [0, 1, -1]):
+            for s_ in (1, -1):
+                for act in acts:
+                    yield _fib_case(op, 0, 0, a, s=s_, shape=5, act=act)
+        for parent in _leaf_fibers(4, [0, 1]):
+            for step in (2, 3):
+                for part in range((4 + step - 1) // step):
+                    a = _partition(parent, step, part)
+                    if a:
+                        yield _fib_case(op, 0, 0, a, s=2, shape=6,
+                                        act={"how": "split", "parent": parent, "step": step, "part": part})
+    small = _leaf_fibers(3, [0, 1])
+    for op in FF_OPS:
+        for a in small:
+            for b in small:
+                yield _fib_case(op, 0, 0, a, b=b, shape=4, act={"how": "ctor", "lo": 1, "hi": 3},
+                                actb={"how": "set", "lo": 0, "hi": 2})
     # seeded random: larger leaf fibers, 2-level trees
     nrand = 2500 if tier == "quick" else 200000
     for i in range(nrand):
@@ -206,11 +251,21 @@ def _gen_fibers(rng, tier):
             kind = "owned" if (d >= 1 and rng.random() < 0.6) else "free"
             if d == 2 or (d == 1 and kind == "free" and (not a or not b)):
                 kind = "owned"   # a free empty fiber cannot know that its payloads would be fibers
-            yield _fib_case(op, d, dflt, a, b=b, kind=kind)
+            act = actb = shape = None
+            if d == 0 and rng.random() < 0.3:
+                shape = nn + rng.choice([0, 2])
+                a, act = _rand_act(rng, a, shape)
+                if rng.random() < 0.5:
+                    b, actb = _rand_act(rng, b, shape)
+            yield _fib_case(op, d, dflt, a, b=b, kind=kind, shape=shape, act=act, actb=actb)
         elif d == 0:
             op = rng.choice(FS_OPS)
             shape = rng.choice([None, nn, nn + 2])
-            yield _fib_case(op, 0, dflt, a, s=rng.choice([0, 1, -1, 2, 5, -7, dflt]), shape=shape)
+            act = None
+            if rng.random() < 0.4:
+                shape = shape or nn
+                a, act = _rand_act(rng, a, shape)
+            yield _fib_case(op, 0, dflt, a, s=rng.choice([0, 1, -1, 2, 5, -7, dflt]), shape=shape, act=act)
         else:
             op = rng.choice(["sadd", "radd", "smul", "rmul"])
             yield _fib_case(op, d, dflt, a, s=rng.choice([1, 2, -3]), kind="owned", shape2=[nn] * (d + 1))
@@ -342,6 +397,41 @@ def _build(tree, d, dflt, kind, shape=None, shape2=None):
     return f, None
 
 
+def _operand(case, key):
+    """the real operand for case[key], with the active range the case asks for.  For a split
+    partition the model input is what the partition really holds (abstraction of the state
+    before the operation), so case[key] / case["shape"] are overwritten by the observation."""
+    d, dflt, kind = case["d"], case["dflt"], case["kind"]
+    act = case.get("act" if key == "a" else "actb")
+    if act is None or d != 0:
+        return _build(case[key], d, dflt, kind, case.get("shape"), case.get("shape2"))[0]
+    ft = H.ft()
+    if act["how"] == "split":
+        parent = act["parent"]
+        pf = ft.Fiber([c for c, _ in parent], [v for _, v in parent], default=dflt, shape=case.get("shape"))
+        parts = pf.splitUniform(act["step"])
+        f = None
+        for c, p in zip(parts.coords, parts.payloads):
+            if c == act["step"] * act["part"]:
+                f = p
+        if f is None:
+            f = ft.Fiber([], [], default=dflt, shape=case.get("shape"))
+        snap = H.snapshot(f)
+        if snap != case[key]:
+            case[key] = snap
+        shp = f.getShape(all_ranks=False)
+        if isinstance(shp, int) and shp != case.get("shape"):
+            case["shape"] = shp
+        return f
+    tree = case[key]
+    if act["how"] == "ctor":
+        return ft.Fiber([c for c, _ in tree], [v for _, v in tree], default=dflt, shape=case.get("shape"),
+                        active_range=(act["lo"], act["hi"]))
+    f = ft.Fiber([c for c, _ in tree], [v for _, v in tree], default=dflt, shape=case.get("shape"))
+    f.setActive((act["lo"], act["hi"]))
+    return f
+
+
 def _dense(snap, d, dflt, prefix=()):
     """content of a snapshot: {point: value} for non-default leaves (None if ill-formed)"""
     out = {}
@@ -366,12 +456,11 @@ def _dense(snap, d, dflt, prefix=()):
 def _run_fiber(case):
     ft = H.ft()
     op, d, dflt, kind = case["op"], case["d"], case["dflt"], case["kind"]
-    shape, shape2 = case.get("shape"), case.get("shape2")
-    fa, ta = _build(case["a"], d, dflt, kind, shape, shape2)
+    fa = _operand(case, "a")
     side = {}
     inplace = op in ("iadd", "imul", "isadd", "ismul")
     if "b" in case:
-        fb, tb = _build(case["b"], d, dflt, kind, shape, shape2)
+        fb = _operand(case, "b")
         other = fb
         before_b = H.snapshot(fb)
     else:
@@ -399,8 +488,8 @@ def _run_fiber(case):
     if inplace and "out" in case["impl"]:
         # the property's last clause, measured directly: the in-place form leaves the content
         # that the value-returning form produces on fresh copies of the same operands
-        ga, _ = _build(case["a"], d, dflt, kind, shape, shape2)
-        go = _build(case["b"], d, dflt, kind, shape, shape2)[0] if "b" in case else case["s"]
+        ga = _operand(case, "a")
+        go = _operand(case, "b") if "b" in case else case["s"]
         try:
             v = (ga + go) if op in ("iadd", "isadd") else (ga * go)
             side["inplace_matches_value_form"] = (_dense(H.snapshot(v), d, dflt) ==
